@@ -21,7 +21,7 @@ func UnmarshalInt(v any) (int, error) {
 	case int:
 		return v, nil
 	case int64:
-		return int(v), nil
+		return safeCastInt(v)
 	case json.Number:
 		return strconv.Atoi(string(v))
 	case nil:
@@ -114,6 +114,16 @@ func newInt32OverflowError(i int64) *Int32OverflowError {
 
 func (e *Int32OverflowError) Unwrap() error {
 	return e.IntegerError
+}
+
+// safeCastInt guards the conversion on platforms where int is narrower than int64.
+func safeCastInt(i int64) (int, error) {
+	if i > math.MaxInt || i < math.MinInt {
+		return 0, &IntegerError{
+			Message: fmt.Sprintf("%d overflows signed %d-bit integer", i, strconv.IntSize),
+		}
+	}
+	return int(i), nil
 }
 
 func safeCastInt32(i int64) (int32, error) {
